@@ -154,7 +154,7 @@ fn c01_codec<C: Oracle>(rep: &mut Report, thorough: bool, rng: &mut Rng) {
     alpha.dedup();
     alpha.extend(&invalid);
     let mut inputs = all_strings(&alpha, if thorough { 4 } else { 3 });
-    for &n in &[31usize, 32, 33, 63, 64, 65, 127, 129] {
+    for &n in &[31usize, 32, 33, 63, 64, 65, 127, 129, 255, 256, 257, 1023, 1024, 1025, 2049, 4097, 10_001] {
         let mut v: Vec<u8> = (0..n).map(|_| valid[rng.below(valid.len())]).collect();
         inputs.push(v.clone());
         let k = rng.below(n);
@@ -257,6 +257,22 @@ fn c02_kmer<C: Oracle, const K: usize>(rep: &mut Report, rng: &mut Rng) {
             let mut m: HashMap<Seq<C>, usize> = HashMap::new();
             m.insert(owned.clone(), 7);
             rep.expect(m.get(sl) == Some(&7), "C02 an owned key is found by a borrowed slice with the same content", || format!("{} off={} {}", C::NAME, off, sl));
+            // the k-mer against OWNED sequences of the same content but another history (stale bits beyond the end of the
+            // backing word, spare capacity): equality and hashing depend on content only
+            let mut longer = rows.clone();
+            longer.extend((0..5).map(|_| C::len() - 1));
+            let mut t = build::<C>(&longer);
+            t.truncate(K);
+            let mut r = build::<C>(&longer);
+            r.remove(K..);
+            let mut r2 = { let mut l = vec![C::len() - 1; 3]; l.extend(&rows); build::<C>(&l) };
+            r2.remove(..3);
+            let img: Vec<usize> = { let mut v = build::<C>(&longer).into_raw().to_vec(); v.push(usize::MAX); v };
+            let mut hist: Vec<(&str, Seq<C>)> = vec![("truncate", t), ("remove tail", r), ("remove head", r2)];
+            if let Some(fr) = Seq::<C>::from_raw(K, &img) { hist.push(("from_raw with dirty tail", fr)); }
+            for (how, v) in &hist {
+                rep.expect(k == *v && k == v[..] && k == &v[..] && rec(&k) == rec(v), "C02 a k-mer equals (and hashes like) an owned sequence with the same symbols whatever that sequence's history", || format!("{} K={} history={} {} vs {}", C::NAME, K, how, k, v));
+            }
         });
     }
 }
@@ -286,7 +302,7 @@ fn c02_text<C: Oracle>(rep: &mut Report, rng: &mut Rng) {
 fn c02_owned<C: Oracle>(rep: &mut Report, rng: &mut Rng) {
     // owned sequences with the same content but different histories (stale bits beyond the end,
     // spare capacity, copied from an offset) must be equal in every pairing and hash alike
-    for n in [0usize, 1, 3, 4, 9, 31, 33] {
+    for n in [0usize, 1, 3, 4, 9, 31, 33, 130, 1025] {
         let rows = rand_rows::<C>(rng, n);
         let fresh = build::<C>(&rows);
         let mut variants: Vec<(&str, Seq<C>)> = vec![];
@@ -355,7 +371,7 @@ fn c02(_tier: &str, seed: u64) -> Report {
 
 // ------------------------------------------------------------------------------------------ C03
 fn c03_codec<C: Oracle>(rep: &mut Report, rng: &mut Rng) {
-    for n in [0usize, 1, 2, 5, 13, 33, 70] {
+    for n in [0usize, 1, 2, 5, 13, 33, 70, 1030] {
         let rows = rand_rows::<C>(rng, n);
         let off = rng.below(17);
         with_offset::<C, _>(&rows, off, &mut Rng::new(rng.next()), |sl| {
@@ -685,7 +701,7 @@ fn comp_rows<C: Oracle>(rows: &[usize]) -> Vec<usize> {
 }
 fn c07_rev<C: Oracle>(rep: &mut Report, maxlen: usize, rng: &mut Rng) {
     let mut lens: Vec<usize> = (0..=maxlen).collect();
-    lens.extend([31, 32, 33, 63, 64, 65, 70]);
+    lens.extend([31, 32, 33, 63, 64, 65, 70, 257, 1025]);
     for n in lens {
         for off in 0..(64 / C::BITS as usize).min(9) + 1 {
             let rows = rand_rows::<C>(rng, n);
@@ -716,7 +732,7 @@ macro_rules! c07_comp {
         let rng: &mut Rng = $rng;
 
     let mut lens: Vec<usize> = (0..=maxlen).collect();
-    lens.extend([31, 32, 33, 63, 64, 65, 70]);
+    lens.extend([31, 32, 33, 63, 64, 65, 70, 257, 1025]);
     for n in lens {
         for off in [0usize, 1, 2, 3, 5, 12, 13] {
             let rows = rand_rows::<C>(rng, n);
@@ -784,7 +800,7 @@ macro_rules! c20_codec {
         let rep: &mut Report = $rep;
         let rng: &mut Rng = $rng;
 
-    for n in [0usize, 1, 2, 3, 12, 13, 14, 25, 26, 38, 39, 51, 52, 64, 70] {
+    for n in [0usize, 1, 2, 3, 12, 13, 14, 25, 26, 38, 39, 51, 52, 64, 70, 257, 1025] {
         for _ in 0..3 {
             let rows = rand_rows::<C>(rng, n);
             let s = build::<C>(&rows);
@@ -821,7 +837,7 @@ fn c20(_tier: &str, seed: u64) -> Report {
 }
 fn c20_dna(rep: &mut Report, rng: &mut Rng) {
     type D = masked::dna::Dna;
-    for n in [0usize, 1, 2, 15, 16, 17, 33] {
+    for n in [0usize, 1, 2, 15, 16, 17, 33, 1025] {
         let rows = rand_rows::<D>(rng, n);
         let s = build::<D>(&rows);
         rep.case(|| format!("mask masked_dna {}", s));
@@ -835,6 +851,18 @@ fn c20_dna(rep: &mut Report, rng: &mut Rng) {
 }
 
 // ------------------------------------------------------------------------------------------ C08
+/// k-mers compared by their packed integer; every consumer is forwarded to the k-mer iterator itself so that an overridden
+/// nth / count / last / size_hint / fold of KmerIter is what runs
+struct KmerVals<I>(I);
+impl<C: Codec, const K: usize, I: Iterator<Item = Kmer<C, K>>> Iterator for KmerVals<I> {
+    type Item = usize;
+    fn next(&mut self) -> Option<usize> { self.0.next().map(|k| k.bs) }
+    fn nth(&mut self, n: usize) -> Option<usize> { self.0.nth(n).map(|k| k.bs) }
+    fn size_hint(&self) -> (usize, Option<usize>) { self.0.size_hint() }
+    fn count(self) -> usize { self.0.count() }
+    fn last(self) -> Option<usize> { self.0.last().map(|k| k.bs) }
+    fn fold<B, F: FnMut(B, usize) -> B>(self, init: B, mut f: F) -> B { self.0.fold(init, |a, k| f(a, k.bs)) }
+}
 fn c08_k<C: Oracle, const K: usize>(rep: &mut Report, rng: &mut Rng) {
     for n in [0usize, K.saturating_sub(1), K, K + 1, K + 3, 2 * K + 5, 70] {
         let rows = rand_rows::<C>(rng, n);
@@ -846,6 +874,8 @@ fn c08_k<C: Oracle, const K: usize>(rep: &mut Report, rng: &mut Rng) {
             rep.expect(ks.len() == want, "C08 kmers yields max(0, n-K+1) k-mers", || format!("{} K={} n={} got {}", C::NAME, K, n, ks.len()));
             let ws: Vec<&SeqSlice<C>> = sl.windows(K).collect();
             rep.expect(ws.len() == want, "C08 windows(K) yields the same number of windows", || format!("{} K={} n={}", C::NAME, K, n));
+            let kvals: Vec<usize> = ks.iter().map(|k| k.bs).collect();
+            adaptors_agree(rep, "C08 nth / skip / step_by / count / last / size_hint of the k-mer iterator agree with next()", &|| format!("{} K={} n={} off={}", C::NAME, K, n, off), &kvals, &|| KmerVals(sl.kmers::<K>()));
             for (i, k) in ks.iter().enumerate() {
                 let txt = String::from_utf8(text_of::<C>(&rows[i..i + K])).unwrap();
                 let canon = build::<C>(&rows[i..i + K]).to_string();
@@ -919,8 +949,49 @@ fn c08(_tier: &str, seed: u64) -> Report {
 }
 
 // ------------------------------------------------------------------------------------------ C11
+/// The std consumers an Iterator impl may override (nth, count, last, size_hint, fold - and skip / step_by / take built on
+/// them) must agree with plain repeated next(): `want` is the list obtained by collect().  `make` builds a fresh iterator.
+fn adaptors_agree<T: PartialEq + Clone, I: Iterator<Item = T>>(rep: &mut Report, label: &'static str, ctx: &dyn Fn() -> String, want: &[T], make: &dyn Fn() -> I) {
+    let n = want.len();
+    let mut ok = true;
+    let mut why = String::new();
+    let mut note = |c: bool, w: &str| { if !c && ok { ok = false; why = w.to_string(); } };
+    note(make().count() == n, "count()");
+    note(make().last().as_ref() == want.last(), "last()");
+    let (lo, hi) = make().size_hint();
+    note(lo <= n && hi.map_or(true, |h| h >= n), "size_hint()");
+    for k in 0..n + 2 {
+        let mut it = make();
+        let got = it.nth(k);
+        note(got.as_ref() == want.get(k), "nth(k)");
+        if k < n {
+            // the iterator continues right after the k-th item
+            let rest: Vec<T> = it.collect();
+            note(rest[..] == want[k + 1..], "items after nth(k)");
+        }
+        let sk: Vec<T> = make().skip(k).collect();
+        note(sk[..] == want[k.min(n)..], "skip(k)");
+        let tk: Vec<T> = make().take(k).collect();
+        note(tk[..] == want[..k.min(n)], "take(k)");
+    }
+    for st in 1..5usize.min(n + 2) {
+        let sb: Vec<T> = make().step_by(st).collect();
+        let ws: Vec<T> = want.iter().step_by(st).cloned().collect();
+        note(sb == ws, "step_by(s)");
+        let sb2: Vec<T> = make().skip(1).step_by(st).collect();
+        let ws2: Vec<T> = want.iter().skip(1).step_by(st).cloned().collect();
+        note(sb2 == ws2, "skip(1).step_by(s)");
+    }
+    let folded = make().fold(0usize, |a, _| a + 1);
+    note(folded == n, "fold");
+    // exhaustion: None stays None
+    let mut it = make();
+    for _ in 0..n { it.next(); }
+    note(it.next().is_none() && it.next().is_none() && it.nth(0).is_none(), "exhausted iterator keeps returning None");
+    rep.expect(ok, label, || format!("{}: {} disagrees with repeated next()", ctx(), why));
+}
 fn c11_codec<C: Oracle + core::fmt::Debug>(rep: &mut Report, rng: &mut Rng) {
-    for n in [0usize, 1, 2, 3, 7, 33, 66] {
+    for n in [0usize, 1, 2, 3, 7, 33, 66, 130] {
         let rows = rand_rows::<C>(rng, n);
         let off = rng.below(15);
         with_offset::<C, _>(&rows, off, &mut Rng::new(rng.next()), |sl| {
@@ -945,6 +1016,17 @@ fn c11_codec<C: Oracle + core::fmt::Debug>(rep: &mut Report, rng: &mut Rng) {
                 rep.expect(cs == wantc, "C11 chunks(w) yields floor(n/w) disjoint slices, tail dropped", || format!("{} n={} w={}", C::NAME, n, w));
                 let v: Vec<Seq<C>> = sl.chunks(w).collect();
                 rep.expect(v.iter().map(|s| rows_of::<C>(s)).collect::<Vec<_>>() == wantc, "C11 collecting slices into Vec<Seq> copies each", || format!("{} n={} w={}", C::NAME, n, w));
+            }
+            // std consumers that an Iterator impl may override must agree with repeated next()
+            let ctx = || format!("{} n={} off={}", C::NAME, n, off);
+            adaptors_agree(rep, "C11 nth / skip / step_by / count / last / size_hint of the symbol iterator agree with next()", &ctx, &want, &|| sl.iter());
+            adaptors_agree(rep, "C11 nth / skip / step_by / count / last / size_hint of the reverse iterator agree with next()", &ctx, &wr, &|| sl.rev_iter());
+            for w in [1usize, 2, 3, 5] {
+                // called on the iterator itself (an adapter such as map would hide an overridden nth)
+                let wantw: Vec<&SeqSlice<C>> = if w <= n { (0..=n - w).map(|i| &sl[i..i + w]).collect() } else { vec![] };
+                let wantc: Vec<&SeqSlice<C>> = (0..n / w).map(|i| &sl[i * w..(i + 1) * w]).collect();
+                adaptors_agree(rep, "C11 nth / skip / step_by / count / last / size_hint of windows(w) agree with next()", &ctx, &wantw, &|| sl.windows(w));
+                adaptors_agree(rep, "C11 nth / skip / step_by / count / last / size_hint of chunks(w) agree with next()", &ctx, &wantc, &|| sl.chunks(w));
             }
             let second = build::<C>(&rand_rows::<C>(&mut Rng::new(n as u64), 3));
             let ch: Vec<C> = sl.chain(&second).collect();
@@ -1021,7 +1103,7 @@ fn c13(_tier: &str, seed: u64) -> Report {
             });
         }
     }
-    for n in [40usize, 99] {
+    for n in [40usize, 99, 1027] {
         let rows = rand_rows::<Dna>(&mut rng, n);
         let s = build::<Dna>(&rows);
         let code = |i: usize| (rows[i] | rows[i + 1] << 2 | rows[i + 2] << 4) as u8;
@@ -1031,6 +1113,18 @@ fn c13(_tier: &str, seed: u64) -> Report {
         let cw: String = (0..n / 3).map(|i| ncbi_amino(code(3 * i)) as char).collect();
         rep.case(|| format!("translate {}", s));
         rep.expect(w == ww && c == cw, "C13 translating by windows / chunks gives the translation of each triplet", || format!("{}", s));
+        // reading frames and random access: the k-th window / chunk is the k-th triplet however the iterator is consumed
+        for f in 0..3usize {
+            let frame: String = s.windows(3).skip(f).step_by(3).map(|c| STANDARD.to_amino(c).to_char()).collect();
+            let wf: String = (f..n - 2).step_by(3).map(|i| ncbi_amino(code(i)) as char).collect();
+            rep.expect(frame == wf, "C13 reading frame f by windows(3).skip(f).step_by(3) translates triplets f, f+3, ...", || format!("frame {} of {}", f, s));
+        }
+        for k in [0usize, 1, 2, 7, n / 3 - 1, n / 3, n - 3, n - 2] {
+            let a = s.windows(3).nth(k).map(|c| STANDARD.to_amino(c).to_char());
+            let b = s.chunks(3).nth(k).map(|c| STANDARD.to_amino(c).to_char());
+            rep.expect(a == if k + 3 <= n { Some(ncbi_amino(code(k)) as char) } else { None } && b == if 3 * k + 3 <= n { Some(ncbi_amino(code(3 * k)) as char) } else { None },
+                "C13 the k-th window / chunk reached by nth(k) is the k-th triplet", || format!("k={} of {}", k, s));
+        }
     }
     rep.expect(caught(|| STANDARD.to_amino(dna!("AC"))).is_none() && caught(|| STANDARD.to_amino(dna!("ACGT"))).is_none(), "C13 codons of another length are refused", || "AC / ACGT".into());
     rep
@@ -1082,6 +1176,8 @@ fn c19(tier: &str, seed: u64) -> Report {
     }
     all.push(rand_rows::<Dna>(&mut rng, 33));
     all.push(rand_rows::<Dna>(&mut rng, 70));
+    all.push(rand_rows::<Dna>(&mut rng, 1025));
+    all.push(rand_rows::<Dna>(&mut rng, 4099));
     for rows in &all {
         let off = rng.below(9);
         with_offset::<Dna, _>(rows, off, &mut Rng::new(rng.next()), |sl| {
